@@ -105,6 +105,10 @@ class Run:
             self.known_seen[key] = self.known_seen.get(key, 0) + 1
             return True
         self.violations += 1
+        if os.environ.get('VERIF_DEBUG'):
+            key = (symptom, tuple(sorted(classes)), tuple((case.get('tags') or [])[:1]))
+            self.extra.setdefault('_dbg', {})
+            self.extra['_dbg'][str(key)] = self.extra['_dbg'].get(str(key), 0) + 1
         os.makedirs(os.path.join(REPLAYS, self.pid), exist_ok=True)
         path = os.path.join(REPLAYS, self.pid, f'{self.tier}-{self.seed}-{self.violations}.json')
         if self._viol_printed < 25:
@@ -118,6 +122,8 @@ class Run:
 
     def finish(self):
         wall = time.time() - self.t0
+        for k, v in sorted(self.extra.pop('_dbg', {}).items()):
+            print('DEBUG-VIOLATION-CLASS', v, k)
         for k in self.known:
             if (k['class'], k['symptom']) not in self.known_seen and k.get('expect_in', self.tier) in (self.tier, 'both') \
                     and k.get('explored_by_check', True):
